@@ -118,6 +118,7 @@ def runBlocks (cfg : Config) (tol : Rat) : Nat → List BlockReq → Variant →
         let res := ev.resid g
         let line := "WL " ++ showNats ev.wrtLevel ++ " WC " ++ showNats ev.wrtChange ++ " R " ++ showCells res
           ++ " X " ++ showBool (exitTest tol res) ++ " X2 " ++ showBool (exitTest2 tol res)
+          ++ " G " ++ showBool (goodGuess? cfg.loggable ev g)
         match blockStep cfg (fun _ _ => some g) bid r.block v with
         | .ok v' => runBlocks cfg tol (bid + 1) rest v' (line :: acc)
         | .error _ => ((line :: acc).reverse, v)
@@ -209,6 +210,18 @@ def stepTol : List String → String
     | _, _ => "bad-op"
   | _ => "bad-op"
 
+/-- `meas ; F ; G ; H ; xi ; dxi`: the model's measurement block (two checked solves) -/
+def stepMeas (secs : List (List String)) : String :=
+  match secs with
+  | [f, g, h, xi, dxi] =>
+    match mat? f, mat? g, mat? h, mat? xi, mat? dxi with
+    | some F, some G, some H, some xi, some dxi =>
+      match Linear.solveMeasurementNonflat F G H xi dxi with
+      | some (y, dy) => "y " ++ showVec y ++ " dy " ++ showVec dy
+      | none => "singular"
+    | _, _, _, _, _ => "bad-op"
+  | _ => "bad-op"
+
 def step (line : String) : String :=
   match sections line with
   | ["consts"] :: [] => QMat.showRat IrisVerif.Steady.expNinth
@@ -220,6 +233,7 @@ def step (line : String) : String :=
   | ["lin", flat] :: rest => stepLin flat rest
   | ["linchk"] :: rest => stepLinchk rest
   | ["measchk"] :: rest => stepMeaschk rest
+  | ["meas"] :: rest => stepMeas rest
   | _ => "bad-op"
 
 end IrisVerif.Driver.C05
